@@ -340,13 +340,16 @@ def step (P : Params) (fuel : Nat) (st : State) : Op → Outcome
   | .collectWork => .ok (collectWork P st)
   | .process => processTree P fuel (preProcess P st)
 
-/-- `darklua_core::process` (src/frontend/mod.rs) as `FileWatcher::start` calls it first:
-snapshot of the output structure, `collect_work`, `process`. -/
+/-- `WorkerTree::snapshot_output_structure`. On memory resources `Resources::exists(location)`
+is "`location` is a file key", so for an output *folder* the snapshot is never taken
+(`output_structure` stays `None`) and `clean_files` skips the ancestor pruning altogether. -/
 def snapshotOutputStructure (P : Params) (fs : Fs) : Option (List Path) :=
-  match fs.any (fun e => e.1 != P.output && startsWith e.1 P.output) with
+  match (alookup fs P.output).isSome && fs.any (fun e => e.1 != P.output && startsWith e.1 P.output) with
   | true => some ((fs.map (·.1)).filter fun p => startsWith p P.output)
   | false => none
 
+/-- `darklua_core::process` (src/frontend/mod.rs) as `FileWatcher::start` calls it first:
+snapshot of the output structure, `collect_work`, `process`. -/
 def start (P : Params) (fuel : Nat) (fs : Fs) (cfg : Cfg) : Outcome :=
   let st0 := State.empty fs cfg
   let st1 := { st0 with outputStructure := snapshotOutputStructure P fs }
@@ -431,21 +434,35 @@ def regionOfWrite (P : Params) (last : Cfg) (st : State) (p : Path) (c : Content
   else if (isAdd || (alookup st.fs p).isNone) && staleAfter P last st (ainsert st.fs p c)
   then some .F12 else none
 
+/-- a queued output path is the output of a current item (F11b) -/
+def outputClash (st : State) : Bool :=
+  st.removeFiles.any fun q => st.nodes.any fun o =>
+    match o with | some it => it.output == q | none => false
+
+/-- a current item's output lies strictly below a queued output path (X) -/
+def outputUnder (st : State) : Bool :=
+  st.removeFiles.any fun q => st.nodes.any fun o =>
+    match o with | some it => strictlyUnder it.output q | none => false
+
+/-- a pending item fails while a file sits at its output path (E) -/
+def failsOverOutput (P : Params) (st : State) : Bool :=
+  st.nodes.any fun o => match o with
+    | some it => !it.status.isDone && (P.T st.cfg (alookup st.fs) it.source).out.isNone
+        && (alookup st.fs it.output).isSome
+    | none => false
+
+/-- the checks on the state after the configuration step -/
+def regionAfterConfig (P : Params) (st1 : State) : Option Region :=
+  if notDoneCount st1.nodes == 0 then (if st1.removeFiles.isEmpty then none else some .F11)
+  else if outputClash st1 then some .F11b
+  else if outputUnder st1 then some .X
+  else if failsOverOutput P st1 then some .E
+  else none
+
 def regionOfProcess (P : Params) (last : Cfg) (st : State) : Option Region :=
   let st0 := preProcess P st
   if st0.lastHash == some (P.configHash st0.cfg) && st0.cfg != last then some .F13
-  else
-    let st1 := configStep P st0
-    if notDoneCount st1.nodes == 0 then (if st1.removeFiles.isEmpty then none else some .F11)
-    else if st1.removeFiles.any (fun q => st1.nodes.any fun o =>
-        match o with | some it => it.output == q | none => false) then some .F11b
-    else if st1.removeFiles.any (fun q => st1.nodes.any fun o =>
-        match o with | some it => strictlyUnder it.output q | none => false) then some .X
-    else if st1.nodes.any (fun o => match o with
-        | some it => !it.status.isDone && (P.T st1.cfg (alookup st1.fs) it.source).out.isNone
-            && (alookup st1.fs it.output).isSome
-        | none => false) then some .E
-    else none
+  else regionAfterConfig P (configStep P st0)
 
 def regionOf (P : Params) (last : Cfg) (st : State) : Op → Option Region
   | .edit p c => regionOfWrite P last st p c false
